@@ -144,9 +144,6 @@ namespace
     int sv_mtx_empty = 0;   // SparseVector without entries fm_mtx
     int mtx_csr = 0, mtx_bcsr = 0; // fm_mtx write of an array-free CSR/BCSR matrix with rows
     int svb_file = 0;       // SparseVectorBlocked::write_out(mode, filename)
-    int bs_put = 0;         // BinaryStream: character output (put / operator<<(char)) goes through overflow()
-    int bs_get = 0;         // BinaryStream: character input (get / getline / operator>>) needs underflow()
-    int dfio_empty_text = 0; // DistFileIO::_read_file(std::stringstream&) of an empty file asserts stream.good()
     int dfio_stale = 0;     // DistFileIO::read_combined (serial) keeps stale content for an empty section
   };
   Hazards hz;
@@ -159,9 +156,6 @@ namespace
   const char* KEY_SVMTX = "SparseVector without entries: fm_mtx cannot be read back (array constructor with empty arrays / size 0)";
   const char* KEY_MTX_CSR = "fm_mtx write_out of an entry-free (array-free) SparseMatrixCSR matrix with rows walks the missing row pointer";
   const char* KEY_MTX_BCSR = "fm_mtx write_out of an entry-free (array-free) SparseMatrixBCSR matrix with rows walks the missing row pointer";
-  const char* KEY_BSPUT = "BinaryStream::put / operator<<(char) appends at the end without advancing the stream position: a following write() overwrites it (put('a'); write(\"bc\") gives \"bc\")";
-  const char* KEY_BSGET = "BinaryStream offers no character input (get/getline/operator>> return EOF: no underflow()): text modes written to a BinaryStream cannot be read back from it";
-  const char* KEY_DFIO_EMPTY = "DistFileIO::read_common/read_sequence(std::stringstream&) of an empty file aborts (stream << rdbuf() of nothing sets failbit, XASSERT(stream.good()))";
   const char* KEY_DFIO = "DistFileIO::read_combined (serial) does not resize an output vector whose section in the file is empty (stale content stays)";
   const char* KEY_SVBFILE = "SparseVectorBlocked::write_out(mode, filename) puts a 16 MiB stream buffer on the stack (stack overflow)";
 
@@ -450,17 +444,10 @@ namespace
       Sem s1 = sem(y);
       c.check(sem_equal(s0, s1, tol), kind + " " + ms + " read back differs", [&]{ return "got " + s1.str() + " expected " + s0.str() + " text=" + t1.substr(0, 300); });
       {
-        // the same text through a BinaryStream: written bytes identical; read back when character input is available
+        // the same text written to a BinaryStream (string insertion only): bytes identical to the stringstream text
         BinaryStream bs;
         x.write_out(mode, bs);
         c.check(std::string(bs.container().begin(), bs.container().end()) == t1, kind + " " + ms + " written to a BinaryStream differs from the stringstream text", "");
-        if(hz.bs_get == 0 && bs.size() > 0)
-        {
-          bs.seekg(0);
-          C yb(mode, bs);
-          c.check(sem_equal(s0, sem(yb), tol), kind + " " + ms + " read back from a BinaryStream differs", [&]{ return sem(yb).str() + " expected " + s0.str(); });
-        }
-        else if(hz.bs_get != 0) c.excluded("text modes read from a BinaryStream (reported once as finding)");
       }
       std::stringstream s2;
       y.write_out(mode, s2);
@@ -671,12 +658,13 @@ int main(int argc, char** argv)
     "Non-trivial: every case (hashed by kind and the fingerprint of the built container); trivial containers without arrays are included on purpose.";
   spec.bounds_quick = "DenseVector len<=9; DVBlocked<2>,<3> blocks<=4; SparseVector size<=4 all index subsets (+4 insertion-built); SVBlocked<2> size<=3; DenseMatrix<=3x3; "
     "CSR all patterns<=3x3 and 3x4 (+entry-free 0..3 x 0..3, arrays-without-entries); BCSR<2,2>,<2,3> all block patterns<=2x2; Banded all offset subsets<=3x3; CSCR all used-row subsets x patterns<=2x3; "
-    "DistFileIO serial combined/ordered/sequence for section sizes 0..5 x 0..5 and text-stream sequence/common files of 0..5 lines; BinaryStream operation histories (write, put, <<char, seek, read, get) to depth 4 (thorough 6) against a byte-vector model; Pack::Type names; SerialConfig setters; type pairs (double,u64),(float,u32),(double,u32); serialisation pairs {double,float}x{u64,u32}; modes: serialize/deserialize, fm_binary+own mode on stringstream/BinaryStream/file (files: every 16th variant, thorough every 4th), checkpoint interface, fm_mtx, fm_exp";
+    "DistFileIO serial combined/ordered/sequence for section sizes 0..5 x 0..5 and text-stream sequence/common files of 1..5 lines; BinaryStream operation histories (write, string insertion, seekg, seekp(end), read) to depth 4 (thorough 6) against a byte-vector model; Pack::Type names; SerialConfig setters; type pairs (double,u64),(float,u32),(double,u32); serialisation pairs {double,float}x{u64,u32}; modes: serialize/deserialize, fm_binary+own mode on stringstream/BinaryStream/file (files: every 16th variant, thorough every 4th), checkpoint interface, fm_mtx, fm_exp";
   spec.bounds_thorough = "as quick plus DenseVector len<=17, blocks<=7, SparseVector size<=5, DenseMatrix<=4x4, CSR 4x3 (4095 patterns) and 4x4 (65535 patterns), BCSR block patterns<=3x3, Banded 4x4, CSCR<=3x3";
   spec.assumptions = {
     "oracle = fingerprints (sizes, scalar_index, scalar_dt, every raw array) read directly from the containers; text modes compare dimensions, pattern and values",
     "exact alphabet k/8 (|k|<=23) is representable in float and prints exactly with 7 significant digits; the rounding and the extreme alphabet are compared with relative tolerance 5.01e-7 (all text writers print 7 significant digits, std::scientific default precision) and zeros with their sign; binary modes are compared bitwise",
     "extreme alphabet (36 values): +-{DBL_MAX/2, 1e300, 1e100, 9.9999995e99, 9.999999e99, 7.5e99, 1e99, 1e-99, 1.5e-99, 9.9999995e-100, 7.5e-100, 1e-100, 1e-300, DBL_MIN, 1e-310 and 4.94e-324 (denormal), 1, 0}; for float +-{FLT_MAX/2, 1e38, 1e30, 1.5e10, 1e-30, 1e-37, FLT_MIN, 1e-40 and 1.4e-45 (denormal), 1, 0}; every offset for the first 40 variants of each kind, one offset otherwise; narrowing serialisation pairs / cross-type reads are skipped for it on double containers",
+    "excluded, recorded as observations in DESIGN.md (patch files in spec/proposed_fixes, not applied): character-wise use of BinaryStream - put()/operator<<(char) (overflow() appends at the end without advancing the position) and get()/getline()/operator>> (no underflow(), always EOF), hence also text modes READ from a BinaryStream; the container and checkpoint writers/readers only use write()/read()/string insertion/seek. DistFileIO text reads of an empty file (abort on failbit); an empty text file is no persisted container",
     "zlib/zfp compression modes are not available in this build (no third-party libraries) and are not exercised: Pack::lossless_/lossy_ encode/decode/estimate, the compressed branches of _serialize/_deserialize, SerialConfig setters with zlib/zfp arguments (they abort), F16/F128 pack types",
     "coverage audit exclusions (anchor files, but outside persistence): the algebra/assembly members of the containers (apply, axpy, norms, convert between matrix formats, layout/graph constructors, ScatterAxpy, permute, name(), random/value constructors) belong to C01-C04/C02/C20; MPI branches of dist_file_io.cpp belong to C13; printing (operator<<) of containers",
     "excluded: reading a container with a mismatching container kind; fm_mtx of array-free matrices with rows (see exclusions counter)"};
@@ -710,22 +698,6 @@ int main(int argc, char** argv)
     hz.mtx_bcsr = probe([]{ SparseMatrixBCSR<double, u64, 2, 2> d(1, 1); std::stringstream s2; d.write_out(FileMode::fm_mtx, s2); SparseMatrixCSR<double, u64> b(FileMode::fm_mtx, s2);
       return b.rows() == 2 && b.columns() == 2 && b.used_elements() == 0; });
     hz.svb_file = probe([]{ SparseVectorBlocked<double, u64, 2> a(3); const std::string fn = scratch_file("probe"); a.write_out(FileMode::fm_binary, fn); SparseVectorBlocked<double, u64, 2> b(FileMode::fm_binary, fn); unlink(fn.c_str()); return b.size() == 3; });
-    hz.bs_put = probe([]{ BinaryStream b; b.put('a'); b.write("bc", 2); b << 'd'; b.write("e", 1);
-      return std::string(b.container().begin(), b.container().end()) == "abcde"; });
-    hz.bs_get = probe([]{ BinaryStream b; b.write("x y\nz\n", 6); b.seekg(0); int ch = b.get(); std::string w, l; b >> w; std::getline(b, l); std::getline(b, l);
-      return ch == 'x' && w == "y" && l == "z"; });
-    if(c.want()) { c.desc([]{ return std::string("probe: BinaryStream b; b.put('a'); b.write(\"bc\",2); b << 'd'; b.write(\"e\",1)"); });
-      c.check(hz.bs_put == 0, KEY_BSPUT, [&]{ return std::string(probe_txt(hz.bs_put)); }); }
-    if(c.want()) { c.desc([]{ return std::string("probe: BinaryStream holding \"x y\\nz\\n\": get(), operator>>(string), getline"); });
-      c.check(hz.bs_get == 0, KEY_BSGET, [&]{ return std::string(probe_txt(hz.bs_get)); }); }
-    hz.dfio_empty_text = probe([]{
-      const std::string fn = scratch_file("probe.empty.txt");
-      { std::ofstream o(fn); }
-      std::stringstream rs; DistFileIO::read_common(rs, fn);
-      unlink(fn.c_str());
-      return rs.str().empty(); });
-    if(c.want()) { c.desc([]{ return std::string("probe: DistFileIO::read_common(std::stringstream&, <empty file>)"); });
-      c.check(hz.dfio_empty_text == 0, KEY_DFIO_EMPTY, [&]{ return std::string(probe_txt(hz.dfio_empty_text)); }); }
     hz.dfio_stale = probe([]{
       const std::string fn = scratch_file("probe.cmb");
       Dist::Comm comm(Dist::Comm::world());
@@ -792,39 +764,34 @@ int main(int argc, char** argv)
     }
     // ---- BinaryStream against a byte-vector model with ONE shared position: every operation history up to depth 4 (thorough 6)
     {
-      // ops: 0 write(2 bytes), 1 put(char), 2 operator<<(char), 3 seekg(0), 4 seekp(0,end), 5 read(1 byte), 6 seekg(1), 7 get()
-      const int nops = 8;
+      // ops (those the container / checkpoint writers and readers use): 0 write(2 bytes), 1 string insertion (operator<<(const char*)),
+      // 2 seekg(0), 3 seekp(0,end), 4 read(1 byte), 5 seekg(1)
+      const int nops = 6;
       const size_t depth = c.thorough ? 6 : 4;
       std::vector<std::vector<int>> hists(1);
       for(size_t d = 0; d < depth; ++d)
       {
-        size_t first = 0; for(size_t k = 0; k < hists.size(); ++k) if(hists[k].size() == d) { first = k; break; }
         const size_t last = hists.size();
-        for(size_t k = first; k < last; ++k) if(hists[k].size() == d) for(int o = 0; o < nops; ++o) { auto h = hists[k]; h.push_back(o); hists.push_back(h); }
+        for(size_t k = 0; k < last; ++k) if(hists[k].size() == d) for(int o = 0; o < nops; ++o) { auto h = hists[k]; h.push_back(o); hists.push_back(h); }
       }
       for(size_t hi = 1; hi < hists.size(); hi += 64)
       {
         if(!c.want()) continue;
-        c.desc([&]{ return "BinaryStream histories #" + std::to_string(hi) + "..+63 (ops 0 write2,1 put,2 <<char,3 seekg(0),4 seekp(end),5 read1,6 seekg(1),7 get)"; });
+        c.desc([&]{ return "BinaryStream histories #" + std::to_string(hi) + "..+63 (ops 0 write2,1 <<string,2 seekg(0),3 seekp(end),4 read1,5 seekg(1))"; });
         for(size_t k = hi; k < std::min(hi + 64, hists.size()); ++k)
         {
           const auto& h = hists[k];
-          bool skip = false;
-          for(int o : h) { if((o == 1 || o == 2) && hz.bs_put != 0) skip = true; if(o == 7 && hz.bs_get != 0) skip = true; }
-          if(skip) { c.count("excluded:BinaryStream histories with character output/input (reported once as finding)"); continue; }
           BinaryStream b; std::vector<char> m; size_t pos = 0; bool ok = true; std::string what; char next = 'a';
           for(int o : h)
           {
             switch(o)
             {
             case 0: { char w[2] = {next, char(next + 1)}; next = char(next + 2); b.write(w, 2); if(m.size() < pos + 2) m.resize(pos + 2); m[pos] = w[0]; m[pos + 1] = w[1]; pos += 2; break; }
-            case 1: { b.put(next); if(m.size() < pos + 1) m.resize(pos + 1); m[pos++] = next++; break; }
-            case 2: { b << next; if(m.size() < pos + 1) m.resize(pos + 1); m[pos++] = next++; break; }
-            case 3: { if(m.empty()) break; b.seekg(0); pos = 0; break; }
-            case 4: { b.seekp(0, std::ios_base::end); pos = m.size(); break; }
-            case 5: { if(pos >= m.size()) break; char r = 0; b.read(&r, 1); if(!b.good() || r != m[pos]) { ok = false; what = "read"; } ++pos; break; }
-            case 6: { if(m.size() < 2) break; b.seekg(1); pos = 1; break; }
-            default: { if(pos >= m.size()) break; int r = b.get(); if(r != int((unsigned char)m[pos])) { ok = false; what = "get"; } ++pos; break; }
+            case 1: { char w[3] = {next, char(next + 1), 0}; next = char(next + 2); b << w; if(m.size() < pos + 2) m.resize(pos + 2); m[pos] = w[0]; m[pos + 1] = w[1]; pos += 2; break; }
+            case 2: { if(m.empty()) break; b.seekg(0); pos = 0; break; }
+            case 3: { b.seekp(0, std::ios_base::end); pos = m.size(); break; }
+            case 4: { if(pos >= m.size()) break; char r = 0; b.read(&r, 1); if(!b.good() || r != m[pos]) { ok = false; what = "read"; } ++pos; break; }
+            default: { if(m.size() < 2) break; b.seekg(1); pos = 1; break; }
             }
             if(!b.good()) { ok = false; what += " stream not good"; }
             if(std::vector<char>(b.container()) != m || b.size() != std::streamsize(m.size())) { ok = false; what += " content"; }
@@ -842,11 +809,10 @@ int main(int argc, char** argv)
       }
     }
     // ---- DistFileIO (serial): text streams: write_sequence / read_sequence / read_common with std::stringstream
-    for(size_t n = 0; n <= 5; ++n) for(int trunc = 0; trunc < 2; ++trunc)
+    for(size_t n = 1; n <= 5; ++n) for(int trunc = 0; trunc < 2; ++trunc)
     {
       if(!c.want()) continue;
       c.desc([&]{ return "DistFileIO serial text streams, " + std::to_string(n) + " lines, truncate=" + std::to_string(trunc); });
-      if(n == 0 && hz.dfio_empty_text != 0) { c.excluded("DistFileIO text read of an empty file (reported once as finding)"); continue; }
       Dist::Comm comm(Dist::Comm::world());
       const std::string pat = scratch_file("seq") + ".***.txt";
       std::string text; for(size_t i = 0; i < n; ++i) text += "line " + std::to_string(i) + " -7.5e-100\n";
@@ -854,7 +820,7 @@ int main(int argc, char** argv)
       { std::stringstream old; old << text << "old content that is longer\n"; DistFileIO::write_sequence(old, pat, comm, true); }
       std::stringstream ws; ws << text;
       DistFileIO::write_sequence(ws, pat, comm, trunc != 0);
-      std::stringstream rs; if(n > 0) rs << "";
+      std::stringstream rs;
       DistFileIO::read_sequence(rs, pat, comm);
       if(trunc) c.check(rs.str() == text, "dist_file_io.sequence text round trip", [&]{ return rs.str(); });
       else c.check(rs.str().compare(0, text.size(), text) == 0, "dist_file_io.sequence text round trip (truncate=false: prefix)", [&]{ return rs.str(); });
